@@ -345,8 +345,18 @@ func genComp(t *rapid.T) CompCase {
 		return Ent{K: k, Tag: tag, Len: rapid.SampledFrom([]int{0, 1, 5, 40, 300}).Draw(t, "len")}
 	}
 	// deeper levels first (oldest): each level is one epoch split into non-overlapping files
+	// which deeper levels hold files: usually 1 and 2; now and then levels of two
+	// digits (a level number is not zero-padded in a file name: "10_" sorts
+	// before "1_" and "2_")
 	deep := rapid.IntRange(0, 2).Draw(t, "deep")
+	var deepLevels []int
 	for lv := deep; lv >= 1; lv-- {
+		deepLevels = append(deepLevels, lv)
+	}
+	if deep > 0 && rapid.IntRange(0, 4).Draw(t, "twodigit") == 0 {
+		deepLevels = append([]int{rapid.SampledFrom([]int{10, 11, 12}).Draw(t, "deeplevel")}, deepLevels...)
+	}
+	for _, lv := range deepLevels {
 		nf := rapid.IntRange(1, 3).Draw(t, "nfiles")
 		// choose cut points in key index space
 		per := (nk + nf - 1) / nf
